@@ -140,16 +140,17 @@ static void print_new(const char *op, lzma_ret ret)
 		printf(" seq=- abe=- tin=%" PRIu64 " tout=%" PRIu64 " sup=-", strm.total_in, strm.total_out);
 	} else {
 		unsigned m = 0;
-		for (unsigned a = 0; a <= LZMA_ACTION_MAX; ++a)
+		for (unsigned a = 0; a <= C11_ACTION_MAX; ++a)
 			if (bool_byte(&strm.internal->supported_actions[a])) m |= 1u << a;
-		printf(" seq=%u abe=%u tin=%" PRIu64 " tout=%" PRIu64 " sup=%u", (unsigned)strm.internal->sequence,
+		const unsigned sq = c11_seq_index(&strm);
+		printf(" seq=%s abe=%u tin=%" PRIu64 " tout=%" PRIu64 " sup=%u", sq < C11_NSEQ ? c11_seq_names[sq] : "UNKNOWN",
 				bool_byte(&strm.internal->allow_buf_error), strm.total_in, strm.total_out, m);
 	}
 }
 
 static void set_mask(unsigned mask)
 {
-	for (unsigned a = 0; a <= LZMA_ACTION_MAX; ++a)
+	for (unsigned a = 0; a <= C11_ACTION_MAX; ++a)
 		if ((mask >> a) & 1)
 			strm.internal->supported_actions[a] = true;
 }
@@ -476,8 +477,8 @@ static void do_call(hp_line *l)
 	if (strm.internal == NULL) {
 		printf(" seq=- abe=- sav=-");
 	} else {
-		const unsigned sq = (unsigned)strm.internal->sequence;
-		printf(" seq=%u abe=%u", sq, bool_byte(&strm.internal->allow_buf_error));
+		const unsigned sq = c11_seq_index(&strm);   // symbolic, see c11_stub.h
+		printf(" seq=%s abe=%u", sq < C11_NSEQ ? c11_seq_names[sq] : "UNKNOWN", bool_byte(&strm.internal->allow_buf_error));
 		if (sq >= 1 && sq <= 4) printf(" sav=%zu", strm.internal->avail_in);
 		else printf(" sav=-");
 	}
@@ -496,7 +497,7 @@ static void do_call(hp_line *l)
 			&& strm.reserved_int2 == pre.reserved_int2 && strm.reserved_int3 == pre.reserved_int3
 			&& strm.reserved_int4 == pre.reserved_int4 && strm.reserved_enum1 == pre.reserved_enum1
 			&& strm.reserved_enum2 == pre.reserved_enum2 && strm.allocator == pre.allocator
-			&& (strm.internal == pre.internal);
+			&& ((strm.internal == NULL) == (pre.internal == NULL));   // (the address itself is the library's business)
 	printf(" # guard=%s law=%s", (guard_ok && resv_same) ? "ok" : "BAD", law_ok ? "ok" : "BAD");
 	if (called) printf(" inner=%zu,%zu,%u", rec.c, rec.p, (unsigned)rec.r);
 	else printf(" inner=-");
